@@ -287,8 +287,9 @@ pub fn gen_audit_cfg(rng: &mut Xoroshiro128StarStar) -> AuditCfg {
         'N' => vec![start.to_string(), n.to_string(), tick.to_string(), pr(rng), pr(rng), pr(rng), rng.gen_range(1..20u32).to_string(),
                     ["0", "1", "3"][rng.gen_range(0..3)].into(), ["1/2", "1", "10", "10"][rng.gen_range(0..4)].into()],
         _ => vec![start.to_string(), n.to_string(), tick.to_string(), pr(rng), rng.gen_range(1..20u32).to_string(),
-                  ["1/2", "1/4", "1"][rng.gen_range(0..3)].into(), ["1", "5", "40"][rng.gen_range(0..3)].into(),
-                  ["1/100", "1/2", "4"][rng.gen_range(0..3)].into(), ["0", "1/2", "1", "2"][rng.gen_range(0..4)].into(),
+                  // negative demand / scale are legal (only |demand * tanh(scale * M) / n| is documented)
+                  ["1/2", "1/4", "1"][rng.gen_range(0..3)].into(), ["1", "5", "40", "40", "-5", "-40"][rng.gen_range(0..6)].into(),
+                  ["1/100", "1/2", "4", "4", "-1/2", "-4"][rng.gen_range(0..6)].into(), ["0", "1/2", "1", "2"][rng.gen_range(0..4)].into(),
                   ["0", "1"][rng.gen_range(0..2)].into(), ["1/2", "1", "10", "10"][rng.gen_range(0..4)].into()],
     };
     AuditCfg { multi, asset, tick, seed: rng.gen_range(0..1_000_000), steps: [1usize, 5, 20, 60, 200][rng.gen_range(0..5)],
